@@ -112,6 +112,7 @@ type Machine struct {
 	locks    map[*value]int
 	callStack []*ssa.Function
 	notes    []string
+	rtErrType types.Type
 	Emitted  []string
 	markIncomplete bool
 	InitPrefixes []string
